@@ -386,8 +386,86 @@ def diffLoopFixed : Option β → List β → List β → List β
 def diff (v1 v2 : List β) : List β :=
   diffLoopFixed eq lt none (v1.mergeSort (leOfLt lt)) (v2.mergeSort (leOfLt lt))
 
+/-- loop of `containsAll` (VectorTools.h:1796-1802) over the sorted `v2` (with the previous element)
+and the current suffix of the sorted `v1`; before the repair `v1[j]` is an unguarded read -/
+def containsAllLoopOrig : Option β → List β → List β → Res Bool
+  | _, [], _ => .ok true
+  | prev, x :: xs, s =>
+    if sameAsPrev eq prev x then containsAllLoopOrig (some x) xs s
+    else
+      let s' := advance lt x s
+      match s' with
+      | [] => .error .ub
+      | y :: _ => if !(eq y x) then .ok false else containsAllLoopOrig (some x) xs s'
+
+def containsAllOrig (v1 v2 : List β) : Res Bool :=
+  containsAllLoopOrig eq lt none (v2.mergeSort (leOfLt lt)) (v1.mergeSort (leOfLt lt))
+
+/-- after the repair (`j >= v1.size() ||` guards the read): an exhausted/empty `v1` answers false -/
+def containsAllLoop : Option β → List β → List β → Bool
+  | _, [], _ => true
+  | prev, x :: xs, s =>
+    if sameAsPrev eq prev x then containsAllLoop (some x) xs s
+    else
+      let s' := advance lt x s
+      match s' with
+      | [] => false
+      | y :: _ => if !(eq y x) then false else containsAllLoop (some x) xs s'
+
+/-- `containsAll(v1, v2)` (VectorTools.h:1791): does `v1` contain every element of `v2` -/
+def containsAll (v1 v2 : List β) : Bool :=
+  containsAllLoop eq lt none (v2.mergeSort (leOfLt lt)) (v1.mergeSort (leOfLt lt))
+
+/-! `std::map<K, V>` as an association list kept strictly increasing in the key -/
+
+/-- `m[k] = f(m[k])` where a missing key is first value-initialised (`f none`) -/
+def mapUpdate {γ : Type} (k : β) (f : Option γ → γ) : List (β × γ) → List (β × γ)
+  | [] => [(k, f none)]
+  | (k', c) :: rest =>
+    if lt k k' then (k, f none) :: (k', c) :: rest
+    else if lt k' k then (k', c) :: mapUpdate k f rest
+    else (k', f (some c)) :: rest
+
+/-- `m[k]` for reading -/
+def mapGet? {γ : Type} (k : β) : List (β × γ) → Option γ
+  | [] => none
+  | (k', c) :: rest => if lt k k' then none else if lt k' k then mapGet? k rest else some c
+
 end Sets
 
+
+/-! ### entropy and mutual information of samples (VectorTools.h:1585-1641) -/
+section Entropy
+variable {α : Type} [Scalar α]
+open Scalar
+
+/-- `counts[x]++` for every element: the `std::map<T,double>` of occurrence counts -/
+def countMap (v : List α) : List (α × α) :=
+  v.foldl (fun m x => mapUpdate ltb x (fun o => o.getD zero + one) m) []
+
+/-- `shannonDiscrete` (VectorTools.h:1585): `s += (c/n)*log(c/n)/log(base)` over the count map; `-s` -/
+def shannonDiscrete (v : List α) (base : α) : α :=
+  let n : α := ofInt v.length
+  let s := (countMap v).foldl (fun s (kc : α × α) => s + (kc.2 / n) * log (kc.2 / n) / log base) zero
+  Neg.neg s
+
+/-- the nested count map `counts12[a][b]++` -/
+def countMap2 (v1 v2 : List α) : List (α × List (α × α)) :=
+  (List.zip v1 v2).foldl (fun m (ab : α × α) =>
+    mapUpdate ltb ab.1 (fun o => mapUpdate ltb ab.2 (fun c => c.getD zero + one) (o.getD [])) m) []
+
+/-- `miDiscrete` (VectorTools.h:1617): Σ over the joint count map of
+`(c12/n)*log(c12*n/(c1[a]*c2[b]))/log(base)`; `counts1[a]` of a missing key is the value-initialised 0 -/
+def miDiscrete (v1 v2 : List α) (base : α) : Res α :=
+  if v1.length ≠ v2.length then .error .dimension else
+    let c1 := countMap v1
+    let c2 := countMap v2
+    let n : α := ofInt v1.length
+    .ok ((countMap2 v1 v2).foldl (fun s (row : α × List (α × α)) =>
+      row.2.foldl (fun s (kc : α × α) =>
+        s + (kc.2 / n) * log (kc.2 * n / (((mapGet? ltb row.1 c1).getD zero) * ((mapGet? ltb kc.1 c2).getD zero))) / log base) s) zero)
+
+end Entropy
 
 /-! ## Specifications
 
